@@ -206,8 +206,12 @@ def check_identity(c):
 
 def names():
     latin = st.characters(min_codepoint=0, max_codepoint=255)
+    # names whose bytes also happen to be valid UTF-8 / UTF-16: a decoder that guesses the encoding shows itself on these
+    other = st.text(alphabet=st.characters(min_codepoint=0x20, max_codepoint=0x2FFF, blacklist_categories=["Cs"]), min_size=1, max_size=30)
+    as_utf8 = other.map(lambda t: t.encode("utf-8")[:255].decode("latin-1"))
+    as_utf16 = other.map(lambda t: ("\ufeff" + t).encode("utf-16-le")[:254].decode("latin-1"))
     return st.one_of(st.text(alphabet=latin, max_size=40), st.sampled_from(["", "1756-L83E/B", "x" * 255, "é" * 255, "1769-L33ER", "\x00"]),
-                     st.integers(0, 255).flatmap(lambda n: st.text(alphabet=latin, min_size=n, max_size=n)))
+                     st.integers(0, 255).flatmap(lambda n: st.text(alphabet=latin, min_size=n, max_size=n)), as_utf8, as_utf16)
 
 
 @st.composite
